@@ -27,9 +27,9 @@ type c12 struct {
 }
 
 func checkC12(c *Ctx) {
-	c.Rule("C12.R1", "below NearestNeighbors(k, p), a comparison that excludes an entry from the descent and depends on a point-to-box bound other than MINDIST (which only promises one object within that distance) must also depend on k")
-	c.Rule("C12.R2", "at a leaf every entry's MINDIST from the query point is offered to the result accumulator (full range, no early exit); the 1-NN variant keeps the strict minimum")
-	c.Rule("C12.R3", "where the single-neighbour search excludes entries by the MINMAXDIST bound, an entry is excluded only if its MINDIST is strictly greater than the bound")
+	c.Rule("C12.R1", "model evaluation of NearestNeighbors(k, p) on hand-built trees (one leaf; two and three leaves; two inner nodes over three leaves) with the two point-to-box bounds replaced by tables: for every weak ordering of the object distances, every admissible choice of inner MINDIST (tight, lower, zero) and MINMAXDIST (tight, largest in the subtree, beyond everything) and k ∈ {1, 2, n, n+1}, the result has k slots, the first min(k, n) hold distinct stored objects whose distances are the smallest ones in non-decreasing order, the rest are nil")
+	c.Rule("C12.R2", "model evaluation of NearestNeighbor(p) on the same trees and bound tables, distance orderings without ties: the object returned is the one at the least distance (every leaf entry is looked at, no subtree holding the nearest object is skipped)")
+	c.Rule("C12.R3", "the same with ties (several objects, possibly in different subtrees, at the same distance): an object at the least distance is returned — exclusion by the MINMAXDIST bound must not be strict")
 	c.Rule("C12.R4", "distances are compared like with like: the point-to-box bounds return squared distances, math.Sqrt makes them linear, and no ordering comparison (pruning test, accumulator insertion, minimum update) has a squared value on one side and a linear one on the other")
 	c.Rule("C12.R5", "premise of the MINMAXDIST bound and of every prune: each entry's box is the exact envelope of its subtree — the envelope-maintenance obligations of C11.R3 (every mutation followed by an upward pass that reaches the root) hold")
 	p := c.P.Pkg("index/rtree")
@@ -55,10 +55,12 @@ func checkC12(c *Ctx) {
 		c.Unk("C12.R1", "index/rtree.(*Rtree).NearestNeighbor(s)", token.NoPos, "API anchors do not resolve")
 		return
 	}
-	// MINDIST: the bound whose result is offered at leaves of the k-NN search
-	a.leaves(knn, nn)
+	c.Rule("C12.R6", "each point-to-box function of the package equals, as a polynomial in symbolic coordinates and for all 16 placements of the point relative to the box, either MINDIST² or MINMAXDIST² (Roussopoulos, Kelley, Vincent 1995, definition 4)")
+	fMin, fMM := c12formulas(c, p, a.bounds)
+	c12model(c, p, fMin, fMM)
+	a.mindist = fMin
 	if a.mindist == nil {
-		c.Unk("C12.R1", "index/rtree#MINDIST", token.NoPos, "could not identify the bound offered to the accumulator at leaves")
+		c.Unk("C12.R4", "index/rtree#MINDIST", token.NoPos, "no point-to-box function of the package equals MINDIST²: the unit rule has nothing to classify")
 		return
 	}
 	a.classify()
@@ -67,8 +69,6 @@ func checkC12(c *Ctx) {
 			fmt.Println("class", o.Name(), c.P.Position(o.Pos()), cl)
 		}
 	}
-	a.r1(knn)
-	a.r3(nn)
 	a.r4()
 	// R5: exact envelopes (shared with C11)
 	if t := (&c11{c: c, info: p.TypesInfo, pure: map[*types.Func]int{}, r3name: "C12.R5"}); t.discover() {
@@ -76,9 +76,10 @@ func checkC12(c *Ctx) {
 	}
 	c.Floor("C12.R4", 3)
 	c.Floor("C12.R5", 5)
-	c.Floor("C12.R1", 1)
-	c.Floor("C12.R2", 2)
-	c.Floor("C12.R3", 1)
+	c.Floor("C12.R1", 4)
+	c.Floor("C12.R2", 4)
+	c.Floor("C12.R3", 3)
+	c.Floor("C12.R6", 2)
 }
 
 func (a *c12) reach(root *types.Func) []*types.Func {
@@ -114,152 +115,6 @@ func (a *c12) isBound(f *types.Func) bool {
 }
 
 // ---------------------------------------------------------------- R2 (+ MINDIST discovery)
-
-func (a *c12) leaves(knn, nn *types.Func) {
-	c := a.c
-	for _, root := range []*types.Func{knn, nn} {
-		found := false
-		for _, f := range a.reach(root) {
-			fd := c.P.Decl(f)
-			sig := f.Type().(*types.Signature)
-			if sig.Recv() == nil {
-				continue
-			}
-			// the query point parameter
-			var pt types.Object
-			for _, pv := range paramVars(a.info, fd.Type) {
-				if pv != nil && isNamed(pv.Type(), modPath, "Point") {
-					pt = pv
-				}
-			}
-			// `if n.leaf { for … range n.entries {…} }`
-			ast.Inspect(fd.Body, func(nd ast.Node) bool {
-				is, ok := nd.(*ast.IfStmt)
-				if !ok {
-					return true
-				}
-				sel, ok := unparen(is.Cond).(*ast.SelectorExpr)
-				if !ok || sel.Sel.Name != "leaf" {
-					return true
-				}
-				found = true
-				name := c.P.FuncName(f) + "#leaf-scan"
-				sc := newFnScope(a.info, fd.Body)
-				msg := "no loop over the leaf's entries"
-				for _, st := range is.Body.List {
-					l := sc.loopOf(st)
-					if l == nil || l.Hi.Of == nil {
-						continue
-					}
-					if es, ok := unparen(l.Hi.Of).(*ast.SelectorExpr); !ok || es.Sel.Name != "entries" || !sameExpr(a.info, es.X, sel.X) {
-						continue
-					}
-					msg = ""
-					if !(l.Lo.K == 0 && l.Lo.Of == nil && l.Hi.K == 0) {
-						msg = "leaf loop " + l.String() + " does not visit every entry"
-					}
-					brk, cont, rets := earlyExits(l.Body)
-					if len(brk)+len(cont)+len(rets) > 0 {
-						msg = "leaf loop has an early exit: an entry may never be offered"
-					}
-					// the distance: bound(p, e.bb), possibly through math.Sqrt
-					var distVar types.Object
-					var bound *types.Func
-					for _, bs := range l.Body.List {
-						as, ok := bs.(*ast.AssignStmt)
-						if !ok || len(as.Lhs) != 1 || len(as.Rhs) != 1 {
-							continue
-						}
-						e := unparen(as.Rhs[0])
-						if call, ok := e.(*ast.CallExpr); ok && isFuncIn(callee(a.info, call), "math", "Sqrt") {
-							e = unparen(call.Args[0])
-						}
-						if call, ok := e.(*ast.CallExpr); ok && a.isBound(callee(a.info, call)) {
-							okArgs := objOf(a.info, call.Args[0]) == pt
-							if bsel, ok := unparen(call.Args[1]).(*ast.SelectorExpr); !ok || bsel.Sel.Name != "bb" || (l.Val != nil && objOf(a.info, bsel.X) != l.Val) {
-								okArgs = false
-							}
-							if !okArgs {
-								msg = "the distance is not computed from the query point and the current entry's box"
-							}
-							distVar = objOf(a.info, as.Lhs[0])
-							bound = callee(a.info, call)
-						}
-					}
-					if distVar == nil {
-						if msg == "" {
-							msg = "no point-to-box distance is computed for the entries"
-						}
-						continue
-					}
-					// offered: accumulator call with (dist, e.obj), or strict-min update
-					offered := false
-					ast.Inspect(l.Body, func(m ast.Node) bool {
-						switch x := m.(type) {
-						case *ast.CallExpr:
-							g := callee(a.info, x)
-							if g != nil && c.P.Decl(g) != nil && !a.isBound(g) {
-								hasDist, hasObj := false, false
-								for _, arg := range x.Args {
-									if objOf(a.info, arg) == distVar {
-										hasDist = true
-									}
-									if osel, ok := unparen(arg).(*ast.SelectorExpr); ok && osel.Sel.Name == "obj" && l.Val != nil && objOf(a.info, osel.X) == l.Val {
-										hasObj = true
-									}
-								}
-								if hasDist && hasObj {
-									offered = true
-								}
-							}
-						case *ast.IfStmt:
-							b, ok := unparen(x.Cond).(*ast.BinaryExpr)
-							if ok && objOf(a.info, b.X) == distVar && (b.Op == token.LSS || b.Op == token.LEQ) {
-								// d = dist; nearest = e.obj
-								setD, setObj := false, false
-								for _, s2 := range x.Body.List {
-									if as, ok := s2.(*ast.AssignStmt); ok && len(as.Lhs) == 1 && len(as.Rhs) == 1 {
-										if objOf(a.info, as.Rhs[0]) == distVar && objOf(a.info, as.Lhs[0]) == objOf(a.info, b.Y) {
-											setD = true
-										}
-										if osel, ok := unparen(as.Rhs[0]).(*ast.SelectorExpr); ok && osel.Sel.Name == "obj" {
-											setObj = true
-										}
-									}
-								}
-								if setD && setObj {
-									offered = true
-								}
-							}
-						}
-						return true
-					})
-					if !offered && msg == "" {
-						msg = "the entry's distance and object are not offered to the result accumulator"
-					}
-					if msg == "" {
-						if a.mindist == nil {
-							a.mindist = bound
-						} else if a.mindist != bound {
-							msg = "the k-nearest and the single-neighbour leaf scans measure with different bounds (" + a.mindist.Name() + " vs " + bound.Name() + "): one of them does not report the distance to the box"
-						}
-					}
-				}
-				if msg == "" {
-					c.OK("C12.R2", name, is.Pos(), "every entry's distance and object are offered")
-				} else {
-					c.Bad("C12.R2", name, is.Pos(), "%s", msg)
-				}
-				return false
-			})
-		}
-		if !found {
-			c.Unk("C12.R2", c.P.FuncName(root)+"#leaf-scan", token.NoPos, "leaf branch not found below this query")
-		}
-	}
-}
-
-// ---------------------------------------------------------------- bound derivation
 
 // classify computes, for local variables, parameters and results of package
 // functions, whether their value derives from MINDIST (1), another bound (2) or both.
@@ -473,167 +328,4 @@ func (a *c12) boundComparisons(fns []*types.Func) []boundCmp {
 		})
 	}
 	return out
-}
-
-func (a *c12) r1(knn *types.Func) {
-	c := a.c
-	fns := a.reach(knn)
-	// k-derived objects: the k parameter of the entry point and every int parameter it is passed to
-	kfd := c.P.Decl(knn)
-	kDerived := map[types.Object]bool{}
-	for _, pv := range paramVars(a.info, kfd.Type) {
-		if pv != nil {
-			if b, ok := pv.Type().Underlying().(*types.Basic); ok && b.Info()&types.IsInteger != 0 {
-				kDerived[pv] = true
-			}
-		}
-	}
-	for changed := true; changed; {
-		changed = false
-		for _, fn := range fns {
-			ast.Inspect(c.P.Decl(fn).Body, func(n ast.Node) bool {
-				switch x := n.(type) {
-				case *ast.CallExpr:
-					if f := callee(a.info, x); f != nil && c.P.Decl(f) != nil {
-						ps := paramVars(a.info, c.P.Decl(f).Type)
-						for i, arg := range x.Args {
-							if i < len(ps) && ps[i] != nil && !kDerived[ps[i]] {
-								dep := false
-								ast.Inspect(arg, func(m ast.Node) bool {
-									if id, ok := m.(*ast.Ident); ok && kDerived[objOf(a.info, id)] {
-										dep = true
-									}
-									return true
-								})
-								// slices whose length is k (make([]T, k)) carry k too
-								if dep {
-									kDerived[ps[i]] = true
-									changed = true
-								}
-							}
-						}
-					}
-				case *ast.AssignStmt:
-					if len(x.Lhs) == len(x.Rhs) {
-						for i, l := range x.Lhs {
-							o := objOf(a.info, l)
-							if o == nil || kDerived[o] {
-								continue
-							}
-							dep := false
-							ast.Inspect(x.Rhs[i], func(m ast.Node) bool {
-								if id, ok := m.(*ast.Ident); ok && kDerived[objOf(a.info, id)] {
-									dep = true
-								}
-								return true
-							})
-							if dep {
-								kDerived[o] = true
-								changed = true
-							}
-						}
-					}
-				}
-				return true
-			})
-		}
-	}
-	cmps := a.boundComparisons(fns)
-	if len(cmps) == 0 {
-		c.OK("C12.R1", c.P.FuncName(knn)+"#pruning", kfd.Pos(), "no entry is excluded by a bound other than MINDIST on the k-nearest path (%d functions below the query)", len(fns))
-		return
-	}
-	for _, bc := range cmps {
-		dep := false
-		ast.Inspect(bc.stmt.Cond, func(m ast.Node) bool {
-			if id, ok := m.(*ast.Ident); ok && kDerived[objOf(a.info, id)] {
-				dep = true
-			}
-			return true
-		})
-		cons := c.P.FuncName(bc.fn) + "#filter:" + src(bc.cmp)
-		if dep {
-			c.OK("C12.R1", cons, bc.cmp.Pos(), "the exclusion depends on k")
-		} else {
-			c.Bad("C12.R1", cons, bc.cmp.Pos(), "reachable from NearestNeighbors(k, p): `%s` excludes branches using a bound that only guarantees ONE object within that distance (MINMAXDIST) without regard to k, so for k > 1 subtrees holding the 2nd..k-th nearest objects are skipped", src(bc.cmp))
-		}
-	}
-}
-
-func (a *c12) r3(nn *types.Func) {
-	c := a.c
-	fns := a.reach(nn)
-	cmps := a.boundComparisons(fns)
-	// a bound that is not MINDIST must not decide anything except through a comparison this rule
-	// can read: handing it to a library search/sort hides the boundary case MINDIST == bound
-	hidden := false
-	for _, fn := range fns {
-		if a.isBound(fn) {
-			continue
-		}
-		ast.Inspect(c.P.Decl(fn).Body, func(n ast.Node) bool {
-			call, ok := n.(*ast.CallExpr)
-			if !ok {
-				return true
-			}
-			f := callee(a.info, call)
-			if f == nil || c.P.Decl(f) != nil || f.Pkg() == nil || f.Pkg().Path() == "math" {
-				return true
-			}
-			for _, arg := range call.Args {
-				if a.exprClass(arg)&2 != 0 {
-					hidden = true
-					c.Unk("C12.R3", fmt.Sprintf("%s#filter:%s", c.P.FuncName(fn), src(call)), call.Pos(), "entries are selected by `%s`, which receives the MINMAXDIST-derived bound `%s`: whether an entry whose MINDIST equals the bound survives (it must: for a degenerate box MINDIST = MINMAXDIST and the entry holds the nearest object) depends on that function's boundary convention, which is not decided here", src(call), src(arg))
-				}
-			}
-			return true
-		})
-	}
-	if len(cmps) == 0 {
-		if !hidden {
-			c.OK("C12.R3", c.P.FuncName(nn)+"#pruning", c.P.Decl(nn).Pos(), "the single-neighbour search does not prune by MINMAXDIST")
-		}
-		return
-	}
-	for _, bc := range cmps {
-		cons := c.P.FuncName(bc.fn) + "#filter:" + src(bc.cmp)
-		// normalise to  MINDIST op BOUND
-		op := bc.cmp.Op
-		if a.exprClass(bc.cmp.X)&1 == 0 {
-			switch op {
-			case token.LSS:
-				op = token.GTR
-			case token.GTR:
-				op = token.LSS
-			case token.LEQ:
-				op = token.GEQ
-			case token.GEQ:
-				op = token.LEQ
-			}
-		}
-		// what does the true branch do: keep (append) or drop (continue)?
-		keeps, drops := false, false
-		for _, s := range bc.stmt.Body.List {
-			switch x := s.(type) {
-			case *ast.BranchStmt:
-				if x.Tok == token.CONTINUE || x.Tok == token.BREAK {
-					drops = true
-				}
-			case *ast.AssignStmt:
-				if call, ok := unparen(x.Rhs[0]).(*ast.CallExpr); ok && builtinName(a.info, call) == "append" {
-					keeps = true
-				}
-			}
-		}
-		switch {
-		case keeps && (op == token.LEQ):
-			c.OK("C12.R3", cons, bc.cmp.Pos(), "kept when MINDIST ≤ bound: excluded only if strictly greater")
-		case drops && (op == token.GTR):
-			c.OK("C12.R3", cons, bc.cmp.Pos(), "dropped only when MINDIST > bound")
-		case keeps && op == token.LSS, drops && op == token.GEQ:
-			c.Bad("C12.R3", cons, bc.cmp.Pos(), "`%s` also excludes entries whose MINDIST equals the bound; for stored points MINDIST = MINMAXDIST, so the entry holding the nearest object is dropped", src(bc.cmp))
-		default:
-			c.Unk("C12.R3", cons, bc.cmp.Pos(), "filter shape not recognised")
-		}
-	}
 }
